@@ -236,6 +236,8 @@ def _direct_case(draw):
         'weight': [None, None, 'mass', 'mass', False, False][head[3] % 6],
         'center': ['unset', 'none', 'mass', 'mass'][head[4] % 4],
         'ignore': head[5] % 4 != 3,
+        # the processor object first handles a molecule of a force field with the other centre-weight setting
+        'warm': (head[5] + head[7]) % 3 == 0,
     }
     return {
         'atoms': atoms, 'particles': particles, 'call': call,
@@ -310,17 +312,42 @@ def _uses_mass(call):
     return call['weight'] == 'mass'
 
 
+def _warm_up(processor, call):
+    """The processor object handles another molecule first, one whose force field has the other centre-weight setting; what
+    it does to the molecule of the case afterwards must not depend on that."""
+    ff = ForceField(name='c09_warm')
+    if call['center'] != 'mass':
+        ff.variables['center_weight'] = 'mass'
+    graph = Molecule(force_field=ff)
+    graph.add_node(0, atomname='W0', resname='WRM', resid=1, mass=12.0, position=np.array([0.0, 0.0, 0.0]))
+    graph.add_node(1, atomname='W1', resname='WRM', resid=1, mass=1.0, position=np.array([1.0, 0.5, 0.0]))
+    graph.add_edge(0, 1)
+    warm = Molecule(force_field=ff)
+    warm.add_node(0, atomname='WB', resname='WRM', resid=1, graph=graph, mapping_weights={0: 1, 1: 1})
+    processor.run_molecule(warm)
+    want = np.array([1.0 / 13.0, 0.5 / 13.0, 0.0]) if _uses_mass(dict(call, via='processor', center='mass' if call['center'] != 'mass' else 'unset')) \
+        else np.array([0.5, 0.25, 0.0])
+    if not np.allclose(warm.nodes[0]['position'], want, atol=1e-9):
+        raise Violation('warm-up-molecule', 'the two-atom molecule handled first is at %r, expected %r' % (warm.nodes[0]['position'], want))
+
+
 def _call_direct(case, cg):
     call = case['call']
     if call['via'] == 'function':
         weight = call['weight'] if call['weight'] else None
         result = do_average_bead(cg, ignore_missing_graphs=call['ignore'], weight=weight)
     elif call['via'] == 'processor':
-        result = DoAverageBead(ignore_missing_graphs=call['ignore'], weight=call['weight']).run_molecule(cg)
+        processor = DoAverageBead(ignore_missing_graphs=call['ignore'], weight=call['weight'])
+        if call.get('warm'):
+            _warm_up(processor, call)
+        result = processor.run_molecule(cg)
     else:
         system = System(force_field=cg.force_field)
         system.add_molecule(cg)
-        DoAverageBead(ignore_missing_graphs=call['ignore'], weight=call['weight']).run_system(system)
+        processor = DoAverageBead(ignore_missing_graphs=call['ignore'], weight=call['weight'])
+        if call.get('warm'):
+            _warm_up(processor, call)
+        processor.run_system(system)
         if len(system.molecules) != 1:
             raise Violation('system-molecules', 'run_system changed the number of molecules to %d' % len(system.molecules))
         result = system.molecules[0]
@@ -448,6 +475,8 @@ def _run_direct(case):
     if call['weight'] is False and call['center'] == 'mass' and call['via'] != 'function':
         classes.append('weight-False-overrides-center_weight')
     classes.append('via-' + call['via'])
+    if call.get('warm') and call['via'] != 'function':
+        classes.append('processor-object-used-before')
     kinds = {case['atoms'][i]['kind'] for i in used_atoms}
     if 'nokey' in kinds:
         classes.append('missing:no-key')
